@@ -49,6 +49,13 @@ var hangs int
 
 const maxHangs = 8
 
+// leaked counts callers left parked in Lock when their history was closed (only possible
+// when the code under test lost a release, which the history has already shown); a run
+// stops generating after maxLeaked of them.
+var leaked int
+
+const maxLeaked = 100
+
 // ---------------------------------------------------------------- fakes
 
 // fakeStore answers the two lookups Manager.Lock / LockV2Contract make after
@@ -316,6 +323,9 @@ func (w *world) close() {
 		if th.cancel != nil {
 			th.cancel()
 		}
+		if th.status == 'w' && !th.cable {
+			leaked++
+		}
 		close(th.cmds)
 	}
 	runtime.GOMAXPROCS(w.oldProc)
@@ -579,6 +589,31 @@ func (w *world) burst(acts []action) outcome {
 	o.st = w.statuses()
 	if o.hang || o.panic != "" {
 		w.dead = true
+	}
+	if !o.hang {
+		// A snapshot the driver flags in any case (a contract entry nobody holds or waits for, a missing
+		// entry, waiters without a holder) ends the history: the driver ignores what follows a flagged
+		// line, and callers queueing up behind a lost release could never be reclaimed.
+		ref := 0
+		for id := 0; id < w.nids; id++ {
+			h, wt := 0, 0
+			for _, th := range w.th {
+				if th.id == id && th.status == 'h' {
+					h++
+				} else if th.id == id && th.status == 'w' {
+					wt++
+				}
+			}
+			if h+wt > 0 {
+				ref++
+			}
+			if wt > 0 && h == 0 {
+				w.dead = true
+			}
+		}
+		if ref != o.locks {
+			w.dead = true
+		}
 	}
 	if o.hang {
 		hangs++ // the goroutines of this history stay blocked for the rest of the process
@@ -1221,7 +1256,7 @@ func TestEngine(t *testing.T) {
 	}
 	r := vhlib.NewRand(cfg.Seed)
 	doLockUsers(tr)
-	for i := 0; i < cfg.N && hangs < maxHangs; i++ {
+	for i := 0; i < cfg.N && hangs < maxHangs && leaked < maxLeaked; i++ {
 		if i%100 == 0 {
 			genUsers(t, tr, r) // the lock-users sweep, first and then every 100 histories
 		}
